@@ -497,27 +497,37 @@ func c14CurveTable(r *Report, keyT interface{ String() string }) {
 			if res[1].Op != "nil" || res[0].Op != "iface" || !strings.Contains(res[0].S, "ecdsa") {
 				continue
 			}
-			alg, known := int64(0), false
-			for _, c := range p.conds {
-				if c.Val && c.Pred.Op == "binop" && c.Pred.S == "==" {
-					for i := 0; i < 2; i++ {
-						if n, ok := termConstInt(c.Pred.Args[i]); ok && strings.HasPrefix(c.Pred.Args[1-i].String(), "res<0>(call<"+shortFn(P.keyDerive())+">") {
-							alg, known = n, true
+			// the algorithm test may sit in a helper whose verdict the path
+			// follows: the path is split into the helper's cases
+			for _, cs := range P.expandConds(p.conds, 0) {
+				q := *p
+				q.conds = cs
+				if !q.feasible() {
+					continue
+				}
+				p := &q
+				alg, known := int64(0), false
+				for _, c := range p.conds {
+					if c.Val && c.Pred.Op == "binop" && c.Pred.S == "==" {
+						for i := 0; i < 2; i++ {
+							if n, ok := termConstInt(c.Pred.Args[i]); ok && strings.HasPrefix(c.Pred.Args[1-i].String(), "res<0>(call<"+shortFn(P.keyDerive())+">") {
+								alg, known = n, true
+							}
 						}
 					}
 				}
-			}
-			if !known {
-				continue
-			}
-			// Curve field of the constructed key
-			for _, b := range fn.Blocks {
-				for _, in := range b.Instrs {
-					if a, ok := in.(*ssa.Alloc); ok && P.terms.of(a).eq(res[0].Args[0]) {
-						for _, path := range [][]string{{"Curve"}, {"PublicKey", "Curve"}} {
-							if c := P.evalCalls(p, p.eng.loadPath(a, path, p.ret), nil, 0); c.Op == "call" || c.Op == "iface" {
-								got[alg] = strings.TrimSuffix(strings.TrimPrefix(strings.TrimPrefix(c.String(), "iface<crypto/elliptic.Curve>("), "call<"), ">()")
-								got[alg] = strings.TrimSuffix(got[alg], ">())")
+				if !known {
+					continue
+				}
+				// Curve field of the constructed key
+				for _, b := range fn.Blocks {
+					for _, in := range b.Instrs {
+						if a, ok := in.(*ssa.Alloc); ok && P.terms.of(a).eq(res[0].Args[0]) {
+							for _, path := range [][]string{{"Curve"}, {"PublicKey", "Curve"}} {
+								if c := P.evalCalls(p, p.eng.loadPath(a, path, p.ret), nil, 0); c.Op == "call" || c.Op == "iface" {
+									got[alg] = strings.TrimSuffix(strings.TrimPrefix(strings.TrimPrefix(c.String(), "iface<crypto/elliptic.Curve>("), "call<"), ">()")
+									got[alg] = strings.TrimSuffix(got[alg], ">())")
+								}
 							}
 						}
 					}
